@@ -342,7 +342,10 @@ class _RawConfigParser(configparser.RawConfigParser):
       if 'fallback' in kwargs:
         return kwargs['fallback']
       raise configparser.NoOptionError(option, section)
-    return super(_RawConfigParser, self).get(section, option, **kwargs)
+    try:
+      return super(_RawConfigParser, self).get(section, option, **kwargs)
+    except configparser.InterpolationError as e:
+      raise ConfigParserException("Could not substitute placeholder in [{}]: '{}'. {}".format(section, option, e.message))
 
   def optionxform(self, option):
     # Remove all whitespace here (not only in the dict used for storage) so that the parser's
